@@ -281,9 +281,42 @@ def check_cfg(chk, cfg, all_faults=True):
                                      f"after the resumed run was interrupted again: groups present: {summ2.get('groups')}", {**sig, "clause": "header2"})
                         t2 = smcrun.Target(cfg["dims"], width=cfg["like_width"])
                         a2 = Aspire.resume_from_file(p, log_likelihood=t2.log_likelihood, log_prior=t2.log_prior)
-                with al.orng_seed(cfg["seed"]):
-                    s2, h2 = a2.sample_posterior(return_history=True, **kw)
+                log2 = []
+                resumed_at = pickle.loads(al.read_ckpt_bytes(p)).get("iteration") if al.read_ckpt_bytes(p) else None
+                # the continuation runs with the cadence primed by resume_from_file (every=1) or, every third time, inside a new
+                # context with ANOTHER cadence than the interrupted run's (the iteration it resumes at is then off that cadence's grid)
+                e2 = 1 if k % 3 != 1 else e + 1
+                with al.orng_seed(cfg["seed"]), al.observe_checkpoints(log2, p):
+                    if e2 == 1:
+                        s2, h2 = a2.sample_posterior(return_history=True, **kw)
+                    else:
+                        with a2.auto_checkpoint(p, every=e2):
+                            s2, h2 = a2.sample_posterior(return_history=True, **kw)
                 R2 = al.result_record(s2, h2)
+                # the CONTINUATION obeys the same rules: checkpoints at the iterations the cadence dictates (multiples of the cadence,
+                # whatever iteration the run was resumed at) plus once at the end, and the file ends up holding the final payload -
+                # also when the loop had nothing left to do (resumed at temperature 1 with only the enlargement pending)
+                its2 = len(h2.beta)
+                if resumed_at is not None:
+                    chk.count(f"resumed_continuation:cadence_{'primed_1' if e2 == 1 else 'new_context'}")
+                    exp2 = [k_ for k_ in range(int(resumed_at) + 1, its2 + 1) if k_ % e2 == 0] + [its2]
+                    got2 = [c_["iteration"] for c_ in log2]
+                    chk.count("resumed_continuation:loop_skipped" if int(resumed_at) >= its2 else "resumed_continuation:loop_ran")
+                    if got2 != exp2:
+                        chk.fail("checkpoints exactly at the cadence plus once at the end", dict(case, resumed_at_iteration=int(resumed_at)),
+                                 f"run resumed at iteration {resumed_at} of {its2}, cadence {e2}: checkpoints at {got2}, expected {exp2}",
+                                 {**sig, "clause": "cadence", "resumed": True})
+                    fb2 = al.read_ckpt_bytes(p)
+                    if log2 and fb2 != log2[-1]["bytes"]:
+                        chk.fail("the file holds byte-for-byte the most recent payload", dict(case, resumed_at_iteration=int(resumed_at)),
+                                 "after the resumed run finished the file does not hold its last payload", {**sig, "clause": "bytes", "resumed": True})
+                    if fb2 is not None:
+                        st2 = pickle.loads(fb2)
+                        n_file, n_ret = len(st2["samples"].x), len(s2.x)
+                        if n_file != n_ret or int(st2.get("iteration", -1)) != its2:
+                            chk.fail("the file holds byte-for-byte the most recent payload", dict(case, resumed_at_iteration=int(resumed_at)),
+                                     f"after the resumed run finished ({its2} iterations, {n_ret} samples returned) the file holds iteration "
+                                     f"{st2.get('iteration')} with {n_file} particles", {**sig, "clause": "final_payload", "resumed": True})
                 if R2["beta"] != R["beta"] or R2["logZ"] != R["logZ"] or not np.array_equal(R2["x"], R["x"]) or R2["npops"] != R["npops"]:
                     chk.fail("resume-from-file finishes like the uninterrupted run", case,
                              f"beta {R2['beta'][-3:]} vs {R['beta'][-3:]}, logZ {R2['logZ']!r} vs {R['logZ']!r}, stored populations {R2['npops']} vs {R['npops']}",
